@@ -149,6 +149,9 @@ func Eval(e ast.Expr, doc jv.Val) (Res, Events) {
 		return Res{Undet: st.Undet}, ev
 	}
 	if st.Err != 0 {
+		if st.ZeroStep {
+			st.Err |= InvValue
+		}
 		return Res{Err: st.Err}, ev
 	}
 	v := in.eval(e, doc, nil, 0)
